@@ -202,12 +202,16 @@ CHECKS = {
               "bytes, tick and flags as solver variables, Add(String(r)) succeeds and appends exactly r (not suspended), and printing the "
               "parsed rule gives the same text; every accepted short form (default extra) re-parses to the same rule after printing; "
               "Del/Suspend/Reactivate with a symbolic index on lists of up to 3 (thorough: 5) rules change only the addressed rule, keep the "
-              "order, and reject an index >= length without changing anything. The compilation of rules into injection/report tables "
-              "(SimDrive/SimReport.Init) and the tick loops that apply them (cmd/bondmachine, SinglePipelineSimulate) are NOT covered: "
-              "'applied exactly as written during simulation' is outside this check's claim."),
+              "order, and reject an index >= length without changing anything. Part 3 (SimDrive.Init): for lists of 1-3 rules on concrete "
+              "objects with tick, value, kind and suspended flag symbolic, for ANY tick and every object the absolute and periodic injection "
+              "tables hold exactly the value of the last non-suspended matching set rule and nothing otherwise, the injection pointer is the "
+              "object's location and absolutely-set inputs are marked for valid. SimReport.Init (get/show/event tables) and the tick loops "
+              "that apply the tables (cmd/bondmachine - where periodic set is a TODO -, SinglePipelineSimulate) are NOT covered: 'applied "
+              "exactly as written during simulation' is only claimed up to the compiled tables."),
         note=("Trusted: z3, go/ssa, /verif/symgo; the decimal text of a 64-bit tick is an injective token (strconv.Atoi(strconv.Itoa(x)) == x), "
-              "ticks below 65536 use exact digit arithmetic; indices assumed >= 0."),
-        design="DESIGN.md section 3, C15 (parts 1-2)"),
+              "ticks below 65536 use exact digit arithmetic; indices assumed >= 0; bondmachine.ImportNumber stubbed in part 3 (C08 covers the "
+              "importers). One genuine defect repaired (fix: 6f084b9)."),
+        design="DESIGN.md section 3, C15; Changes after round 0"),
     "C16": dict(
         category="proof",
         text=("Part (a) of the design, decided by SMT for every count within the stated ranges: procbuilder.Needed_bits, "
@@ -274,7 +278,7 @@ def main():
         ],
         "checks": checks,
         "not_applicable": na,
-        "notes": "fix: commits in /repo: bc191a3, 7728b54 (C03), f0fe4e6 (C08), 31ff0b2 (C01), 70761df (C09), 6d0e87d (C14). Known findings and fixed entries: /verif/known_findings.json.",
+        "notes": "fix: commits in /repo: bc191a3, 7728b54 (C03), f0fe4e6 (C08), 31ff0b2 (C01), 70761df (C09), 6d0e87d (C14), 6f084b9 (C15). Known findings and fixed entries: /verif/known_findings.json.",
     }
     with open(os.path.join(ROOT, "MANIFEST.json"), "w") as f:
         json.dump(m, f, indent=1)
